@@ -602,7 +602,7 @@ func (FramesClean) Execute(pl engine.Plan, c *engine.RunCtx) *engine.Failure {
 			stream.StallSeed, stream.StallDen, stream.Piggyback = pass.StallSeed, pass.StallDen, pass.Piggyback
 			policies[pass.Policy.Kind] = true
 			wrap := pass.Wrap
-			if pass.Via == "atreader" && (wrap == "bytesreader" || wrap == "bytesbuffer") {
+			if pass.Via == "atreader" && (wrap == "bytesreader" || wrap == "bytesbuffer" || wrap == "osfile") {
 				wrap = "" // keep the real AtToReader in the path
 			}
 			if f := readAllFrames("C06", 100000+wi*10000+pi*100, stream, wrap, s.written, w.Msgs, s.frameLens, c, wi, pass.Reuse, pass.HeaderFirst, pass.SlowFrame, pass.SlowNs); f != nil {
